@@ -255,6 +255,9 @@ func wordsN(rng *rand.Rand, n int, extra string) []string {
 		if b[0] == '/' || b[0] == '"' {
 			b[0] = 'x'
 		}
+		if b[len(b)-1] == '/' { // no line other than a record terminator may end in "//"
+			b[len(b)-1] = 'y'
+		}
 		if rng.Intn(12) == 0 { // a word that happens to be a keyword of the format
 			b = []byte([]string{"FEATURES", "ORIGIN", "SOURCE", "REFERENCE", "DEFINITION", "ACCESSION", "VERSION", "LOCUS", "KEYWORDS", "COMMENT", "ORGANISM", "AUTHORS", "TITLE", "JOURNAL"}[rng.Intn(14)])
 		}
@@ -301,11 +304,32 @@ func block(key string, ws []string, w int) []string {
 
 // genGbRecord builds a random abstract record and lays it out with the harness's own writer
 func genGbRecord(rng *rand.Rand, maxSeq, maxFeats int) (lines []string, want gbRec) {
+	if maxSeq < 0 { // one record well beyond 64 KiB of text
+		maxSeq = 70000 + rng.Intn(20000)
+		lines, want = genGbRecordN(rng, maxSeq, maxSeq, maxFeats)
+		return
+	}
+	return genGbRecordN(rng, 0, maxSeq, maxFeats)
+}
+
+func genGbRecordN(rng *rand.Rand, fixedN, maxSeq, maxFeats int) (lines []string, want gbRec) {
 	kw := 30 + rng.Intn(38)
 	qw := 20 + rng.Intn(39)
 	n := 1 + rng.Intn(maxSeq)
-	if rng.Intn(3) == 0 {
+	if fixedN > 0 {
+		n = fixedN
+	}
+	switch rng.Intn(4) * map[bool]int{true: 0, false: 1}[fixedN > 0] + map[bool]int{true: 9, false: 0}[fixedN > 0] {
+	case 0:
 		n = 1 + rng.Intn(130)
+	case 1: // at and next to the boundaries of the 60-letter ORIGIN lines and their 10-letter blocks
+		n = 60*(1+rng.Intn(1+maxSeq/60)) + rng.Intn(3) - 1
+		if rng.Intn(3) == 0 {
+			n = 10*(1+rng.Intn(30)) + rng.Intn(3) - 1
+		}
+		if n > maxSeq+1 {
+			n = 60 * (1 + rng.Intn(20))
+		}
 	}
 	sb := make([]byte, n)
 	for i := range sb {
@@ -485,10 +509,16 @@ func c01Record(tier string, seed int64, emit func(interface{})) {
 		}
 		var recs [][]string
 		var wants []gbRec
+		if i == 0 {
+			k = 3 // a file whose middle record is far longer than 64 KiB
+		}
 		for j := 0; j < k; j++ {
 			ms := maxSeq
 			if j > 0 || i%4 != 0 {
 				ms = 2000
+			}
+			if i == 0 && j == 1 {
+				ms = -1
 			}
 			l, w := genGbRecord(rng, ms, maxFeats)
 			recs = append(recs, l)
